@@ -15,15 +15,14 @@ import subprocess
 import sys
 
 FILES = ['group.c', 'group0.c', 'group1.c', 'group2.c', 'group4.c', 'group10.c', 'parser.c',
-         'buffer.c', 'af.c', 'ct.c', 'string.c', 'rdsparser.c', 'ecc.c']
-SKIPPED_FILES = ['utils.c', 'pty.c', 'country.c']
+         'buffer.c', 'af.c', 'ct.c', 'string.c', 'rdsparser.c', 'ecc.c', 'utils.c']
+SKIPPED_FILES = ['pty.c', 'country.c']
 DUAL_FILES = ['string.c']          # translated for both charset configurations
 PRIMS = ['rdsparser_string_get_size', 'rdsparser_string_get_content',
          'rdsparser_string_get_errors', 'rdsparser_string_init']
 BY_DESIGN = {
     'rdsparser_new': 'by design: allocator',
     'rdsparser_free': 'by design: allocator',
-    'rdsparser_parse_string': 'by design: libc string parsing (utils.c)',
     'rdsparser_string_get_size': 'by design: packed string layout primitive',
     'rdsparser_string_get_content': 'by design: packed string layout primitive',
     'rdsparser_string_get_errors': 'by design: packed string layout primitive',
@@ -183,6 +182,7 @@ def const_value(e, enums=None):
 # C types.  Tagged tuples:
 #   ('int', kind)  kind in u8 i8 u16 i16 u32 i32 u64 i64 bool      ('enum', tag)
 #   ('struct', tag)   ('str',) element of a packed string   ('cstr',) a packed string object
+#   ('cstring',) a NUL-terminated C string seen through a `char *` (the bytes from the pointer up to the NUL)
 #   ('void',)   ('fnptr',)   ('ptr', T, const?)   ('arr', T, n|None)   ('fn',)
 
 RANGE = {'u8': (0, 2**8 - 1), 'i8': (-2**7, 2**7 - 1), 'u16': (0, 2**16 - 1), 'i16': (-2**15, 2**15 - 1),
@@ -228,6 +228,9 @@ class Types:
             for d in reversed(dims):
                 t = ('arr', t, int(d) if d else None)
             return t
+        m = re.match(r'^([^\[\]]*?)\[([^\[\]]*[A-Za-z_][^\[\]]*)\]$', s)
+        if m:                                   # variably-modified array type: size unknown here
+            return ('arr', self.parse(m.group(1)), None)
         t = re.sub(r'\s*\b(const|volatile|restrict)$', '', s).strip()
         if t.endswith('*'):
             pointee = t[:-1].strip()
@@ -283,6 +286,8 @@ def lean_type(t):
         return 'C_' + t[1]
     if t[0] == 'cstr':
         return 'CStr'
+    if t[0] == 'cstring':
+        return 'List Int'
     if t[0] == 'arr':
         e = lean_type(t[1])
         return 'List ' + (e if ' ' not in e else '(' + e + ')')
@@ -296,7 +301,7 @@ def default_of(t):
         return 'C_' + t[1] + '.zero'
     if t[0] == 'cstr':
         return 'CStr.empty'
-    if t[0] == 'arr':
+    if t[0] in ('arr', 'cstring'):
         return '[]'
     raise Unsupported('no default for %r' % (t,))
 
@@ -368,7 +373,26 @@ class Builtin:
         self.uses_log = False
 
 
-BUILTIN_FNS = {'memset': Builtin([0]), 'rdsparser_string_init': Builtin([0])}
+BUILTIN_FNS = {'memset': Builtin([0]), 'rdsparser_string_init': Builtin([0]),
+               'strtol': Builtin([1]), 'strlen': Builtin([]), 'isxdigit': Builtin([])}
+CHAR_PTR = ('ptr', ('int', 'i8'), True)         # `const char *`
+LIBC_STRING_FNS = ('strlen', 'strtol')          # their first argument is a C string
+
+
+def cstr_root(n, local):
+    """the variable a `char *` expression is derived from (through casts and `p + k`), mapped through
+    `local` (local pointer -> the variable it was initialised from)"""
+    while True:
+        k = n.get('kind')
+        if k in CAST_KINDS:
+            n = inner(n)[0]
+        elif k == 'BinaryOperator' and n.get('opcode') == '+':
+            n = inner(n)[0]
+        elif k == 'DeclRefExpr':
+            nm = n['referencedDecl'].get('name')
+            return local.get(nm, nm)
+        else:
+            return None
 
 
 def writes_of(node, aliases, lookup):
@@ -427,6 +451,8 @@ class FnInfo:
         self.uses_unicode = False
         self.callees = []
         self.fields_read = {}
+        self.cstr_params = set()    # `const char *` parameters that designate a NUL-terminated C string
+        self.nullable = set()       # ... of which those the body tests against NULL
         self._scan()
 
     def signature(self):
@@ -462,13 +488,67 @@ class FnInfo:
         self.callees = callees
 
     def update(self, lookup):
-        """one round of the written-pointee / uses-log fixed point; True if something changed"""
+        """one round of the written-pointee / uses-log / C-string fixed point; True if something changed"""
         w = writes_of(self.body, {}, lookup)
         written = {i for i, (n, t, _) in enumerate(self.params) if n in w and t[0] == 'ptr'}
         log = '%log' in w
-        ch = written != self.written or log != self.uses_log
-        self.written, self.uses_log = written, log
+        cstr, nullable = self._cstrings(lookup)
+        ch = written != self.written or log != self.uses_log or cstr != self.cstr_params or nullable != self.nullable
+        self.written, self.uses_log, self.cstr_params, self.nullable = written, log, cstr, nullable
         return ch
+
+    def _cstrings(self, lookup):
+        """A `const char *` parameter is a C string iff the body hands it (possibly offset, possibly through
+        a local pointer initialised from it) to strlen/strtol or to a C-string parameter of a callee; it is
+        nullable iff, in addition, the body converts it to a truth value (`if (p)`, `p && ...`, `!p`)."""
+        cand = {n: i for i, (n, t, _) in enumerate(self.params) if t == CHAR_PTR}
+        if not cand:
+            return set(), set()
+        local, cstr, tested = {}, set(), set()
+
+        def walk(n):
+            if not isinstance(n, dict):
+                return
+            k = n.get('kind')
+            if k == 'VarDecl' and inner(n) and n.get('type', {}).get('qualType') in ('const char *', 'char *'):
+                r = cstr_root(inner(n)[-1], local)
+                if r in cand:
+                    local[n['name']] = r
+            elif k == 'CallExpr':
+                c = callee_of(n)
+                args = inner(n)[1:]
+                if c[0] == 'fn':
+                    info = lookup(c[1])
+                    idx = [0] if c[1] in LIBC_STRING_FNS else sorted(getattr(info, 'cstr_params', ()))
+                    for j in idx:
+                        if j < len(args):
+                            r = cstr_root(args[j], local)
+                            if r in cand:
+                                cstr.add(cand[r])
+            else:
+                # truth-value contexts (C inserts no cast there): operands of && || !, conditions of if and ?:
+                ops = []
+                if k == 'ImplicitCastExpr' and n.get('castKind') == 'PointerToBoolean':
+                    ops = inner(n)[:1]
+                elif k == 'BinaryOperator' and n.get('opcode') in ('&&', '||'):
+                    ops = inner(n)
+                elif k == 'UnaryOperator' and n.get('opcode') == '!':
+                    ops = inner(n)
+                elif k in ('IfStmt', 'ConditionalOperator') and not n.get('hasInit') and not n.get('hasVar'):
+                    ops = inner(n)[:1]
+                for o in ops:
+                    while o.get('kind') == 'ParenExpr':
+                        o = inner(o)[0]
+                    if o.get('kind') == 'ImplicitCastExpr' and o.get('castKind') == 'LValueToRValue':
+                        c = inner(o)[0]
+                        while c.get('kind') == 'ParenExpr':
+                            c = inner(c)[0]
+                        if c.get('kind') == 'DeclRefExpr' and c['referencedDecl'].get('name') in cand:
+                            tested.add(cand[c['referencedDecl']['name']])
+            for c in inner(n):
+                walk(c)
+        walk(self.body)
+        return cstr, tested & cstr
 
 
 # ----------------------------------------------------------------------------------------------
@@ -478,8 +558,9 @@ class Val:
     """a Lean expression text with its precedence; `is_bool` = Lean Bool, otherwise Lean Int
     (or, with `ty` set, an aggregate)"""
 
-    def __init__(self, text, prec=100, is_bool=False, lit=None, ty=None):
+    def __init__(self, text, prec=100, is_bool=False, lit=None, ty=None, truth_only=False):
         self.text, self.prec, self.is_bool, self.lit, self.ty = text, prec, is_bool, lit, ty
+        self.truth_only = truth_only    # C specifies only zero / non-zero (isxdigit): usable as a condition only
 
     def opd(self, p):
         return self.text if self.prec >= p else '(' + self.text + ')'
@@ -488,6 +569,8 @@ class Val:
         return self.opd(100)
 
     def as_int(self):
+        if self.truth_only:
+            raise Unsupported('a value of which C specifies only zero/non-zero is used as a number')
         if not self.is_bool:
             return self
         if self.text == 'true':
@@ -509,8 +592,11 @@ def lit_val(v):
 
 
 class Var:
-    def __init__(self, cname, lean, obj, alias=None, glob=False):
+    def __init__(self, cname, lean, obj, alias=None, glob=False, nullable=False):
         self.cname, self.lean, self.obj, self.alias, self.glob = cname, lean, obj, alias, glob
+        self.nullable = nullable    # a C-string parameter that may be NULL: Lean type `Option (List Int)`
+        self.local_ptr = False      # a local `char *` (set only by strtol's end pointer)
+        self.const = None           # value of a `const` scalar local with a constant initialiser
 
 
 class Place:
@@ -579,15 +665,19 @@ class Place:
 
 
 class Env:
-    def __init__(self, vars_=None):
+    def __init__(self, vars_=None, nonnull=frozenset()):
         self.vars = dict(vars_ or {})
+        self.nonnull = frozenset(nonnull)       # nullable C strings known to be non-NULL here
 
     def declare(self, var):
         if var.cname in self.vars:
             raise Unsupported('redeclaration (shadowing) of %s' % var.cname)
-        e = Env(self.vars)
+        e = Env(self.vars, self.nonnull)
         e.vars[var.cname] = var
         return e
+
+    def knowing(self, names):
+        return Env(self.vars, self.nonnull | frozenset(names)) if names else self
 
     def aliases(self):
         return {v.cname: v.alias.var.cname for v in self.vars.values() if v.alias is not None}
@@ -678,9 +768,11 @@ class FnTr:
             self.side.append(s)
 
     # ---- variables -------------------------------------------------------------------------
-    def var_of_param(self, name, t):
+    def var_of_param(self, name, t, idx=None):
         if is_scalar(t):
             return Var(name, lname(name), t)
+        if idx is not None and idx in self.info.cstr_params:
+            return Var(name, lname(name), ('cstring',), nullable=idx in self.info.nullable)
         if t[0] == 'ptr':
             p = t[1]
             if p[0] == 'struct':
@@ -699,6 +791,227 @@ class FnTr:
         if rd.get('kind') == 'VarDecl' and nm in self.tu.globals and nm in self.g.tables:
             return Var(nm, 'c_' + nm, self.g.tables[nm], glob=True)
         raise Unsupported('reference to unknown variable %s' % nm)
+
+    # ---- C strings and the libc models (Prelude: libc_strlen, libc_isxdigit, libc_strtol16) ----
+    def const_eval(self, n, env):
+        """value of an integer expression built from literals, enumerators, `const` locals with constant
+        initialisers, casts and + - *; None if it is not of that form"""
+        k = n.get('kind')
+        if k in ('IntegerLiteral', 'CharacterLiteral'):
+            return int(n['value'])
+        if k in ('ParenExpr', 'ConstantExpr'):
+            return self.const_eval(inner(n)[0], env)
+        if k == 'DeclRefExpr':
+            rd = n['referencedDecl']
+            if rd.get('kind') == 'EnumConstantDecl':
+                return self.tu.enum_consts.get(rd['name'])
+            return None
+        if k in ('ImplicitCastExpr', 'CStyleCastExpr'):
+            ck, c = n.get('castKind'), inner(n)[0]
+            if ck == 'LValueToRValue':
+                c = strip(c)
+                if c.get('kind') == 'DeclRefExpr' and c['referencedDecl'].get('name') in env.vars:
+                    return env.vars[c['referencedDecl']['name']].const
+                return None
+            if ck in ('IntegralCast', 'NoOp'):
+                v = self.const_eval(c, env)
+                try:
+                    kd = self.T.kind(self.T.of(n))
+                except Unsupported:
+                    return None
+                return None if v is None or kd is None else wrap_value(kd, v)
+            return None
+        if k == 'BinaryOperator' and n.get('opcode') in ('+', '-', '*'):
+            a, b = (self.const_eval(c, env) for c in inner(n))
+            if a is None or b is None:
+                return None
+            try:
+                kd = self.T.kind(self.T.of(n))
+            except Unsupported:
+                return None
+            if kd is None:
+                return None
+            v = {'+': a + b, '-': a - b, '*': a * b}[n['opcode']]
+            if kd in ('u32', 'u64'):
+                return wrap_value(kd, v)
+            return v if RANGE[kd][0] <= v <= RANGE[kd][1] else None
+        return None
+
+    def cstr_var(self, n, env):
+        """the C-string variable a (cast-stripped) DeclRefExpr designates, or None"""
+        if n.get('kind') == 'DeclRefExpr' and n['referencedDecl'].get('name') in env.vars:
+            v = env.vars[n['referencedDecl']['name']]
+            if v.obj == ('cstring',):
+                return v
+        return None
+
+    def is_cstr(self, n, env):
+        """is `n` a `char *` expression into a C string: a C-string variable, possibly offset?"""
+        while True:
+            k = n.get('kind')
+            if k == 'ParenExpr' or (k in ('ImplicitCastExpr', 'CStyleCastExpr') and
+                                    n.get('castKind') in ('LValueToRValue', 'NoOp', 'BitCast')):
+                n = inner(n)[0]
+            elif k == 'BinaryOperator' and n.get('opcode') == '+':
+                n = inner(n)[0]
+            else:
+                return self.cstr_var(n, env) is not None
+
+    def tr_cstr(self, n, env, pre):
+        """Lean text (a `List Int`: the bytes up to, not including, the NUL) of a `char *` expression that
+        designates a C string:  a C-string variable;  `p + K` with a constant K (side condition K <= strlen p);
+        a local `char` array (the string it holds: side condition, it contains a NUL)"""
+        k = n.get('kind')
+        if k == 'ParenExpr':
+            return self.tr_cstr(inner(n)[0], env, pre)
+        if k in ('ImplicitCastExpr', 'CStyleCastExpr'):
+            ck, c = n.get('castKind'), inner(n)[0]
+            if ck in ('NoOp', 'BitCast'):
+                if self.T.of(n) not in (CHAR_PTR, ('ptr', ('int', 'i8'), False)):
+                    raise Unsupported('cast of a C string to another pointer type')
+                return self.tr_cstr(c, env, pre)
+            if ck == 'LValueToRValue':
+                v = self.cstr_var(strip(c), env) if strip(c).get('kind') == 'DeclRefExpr' else None
+                if v is None:
+                    raise Unsupported('pointer that is not a C string used as one')
+                if v.nullable:
+                    if v.cname not in env.nonnull:
+                        self.sidecond(n, '%s ≠ NULL' % v.cname)
+                    return Val('%s.getD []' % v.lean, 90)
+                return Val(v.lean)
+            if ck == 'ArrayToPointerDecay':
+                c = strip(c)
+                if c.get('kind') != 'DeclRefExpr':
+                    raise Unsupported('array expression used as a C string')
+                v = self.lookup_var(env, c)
+                if v.glob or v.obj[0] != 'arr' or v.obj[1] != ('int', 'i8') or v.obj[2] is None:
+                    raise Unsupported('only a local char array can be used as a C string')
+                self.sidecond(n, '%s contains a NUL' % v.cname)
+                return Val('cstrOfChars %s' % v.lean, 90)
+            raise Unsupported('pointer cast %s of a C string' % ck)
+        if k == 'BinaryOperator' and n.get('opcode') == '+':
+            a, b = inner(n)
+            if not self.is_cstr(a, env):
+                raise Unsupported('pointer arithmetic on something that is not a C string')
+            off = self.const_eval(b, env)
+            if off is None or off < 0:
+                raise Unsupported('C string offset that is not a non-negative constant')
+            base = self.tr_cstr(a, env, pre)
+            self.sidecond(n, '%d ≤ strlen(%s)' % (off, base.text))
+            return Val('List.drop %d %s' % (off, base.arg()), 90)
+        raise Unsupported('C string expression %s' % k)
+
+    def cstr_elem(self, n, env, pre):
+        """if the lvalue `n` is `p[i]` or `*p` with p a pointer into a C string: the char read (plain char is
+        signed: `i8` of the byte; the byte at offset strlen is the NUL; beyond it: undefined), else None"""
+        while n.get('kind') == 'ParenExpr':
+            n = inner(n)[0]
+        k = n.get('kind')
+        if k == 'ArraySubscriptExpr' and self.is_cstr(inner(n)[0], env):
+            s = self.tr_cstr(inner(n)[0], env, pre)
+            idx = self.tr_int(inner(n)[1], env, pre)
+        elif k == 'UnaryOperator' and n.get('opcode') == '*' and self.is_cstr(inner(n)[0], env):
+            s = self.tr_cstr(inner(n)[0], env, pre)
+            idx = lit_val(0)
+        else:
+            return None
+        if self.T.of(n) != ('int', 'i8'):
+            raise Unsupported('element of a C string that is not a plain char')
+        if idx.lit is None or idx.lit != 0:
+            self.sidecond(n, '0 ≤ %s ≤ strlen(%s)' % (idx.text, s.text))
+        return Val('i8 (getI %s %s)' % (s.arg(), idx.arg()), 90)
+
+    def null_tested(self, n, env):
+        """the nullable C-string parameter whose conversion to a truth value `n` is, else None"""
+        for ck in ('PointerToBoolean', 'LValueToRValue'):
+            while n.get('kind') == 'ParenExpr':
+                n = inner(n)[0]
+            if n.get('kind') == 'ImplicitCastExpr' and n.get('castKind') == ck:
+                n = inner(n)[0]
+            elif ck == 'LValueToRValue':
+                return None
+        while n.get('kind') == 'ParenExpr':
+            n = inner(n)[0]
+        v = self.cstr_var(n, env)
+        return v if v is not None and v.nullable else None
+
+    def nonnull_facts(self, n, env):
+        """names of the nullable C strings that are non-NULL whenever the condition `n` holds"""
+        while n.get('kind') == 'ParenExpr':
+            n = inner(n)[0]
+        v = self.null_tested(n, env)
+        if v is not None:
+            return {v.cname}
+        if n.get('kind') == 'BinaryOperator' and n.get('opcode') == '&&':
+            return self.nonnull_facts(inner(n)[0], env) | self.nonnull_facts(inner(n)[1], env)
+        return set()
+
+    def isxdigit_macro(self, n):
+        """glibc's <ctype.h> expands isxdigit(c) to `((*__ctype_b_loc())[(int)(c)] & (unsigned short)_ISxdigit)`:
+        returns the node of c if `n` is exactly that, else None"""
+        if n.get('kind') != 'BinaryOperator' or n.get('opcode') != '&':
+            return None
+        a, b = (strip(x) for x in inner(n))
+        if b.get('kind') != 'DeclRefExpr' or b['referencedDecl'].get('kind') != 'EnumConstantDecl' or \
+                b['referencedDecl'].get('name') != '_ISxdigit' or a.get('kind') != 'ArraySubscriptExpr':
+            return None
+        base = strip(inner(a)[0])
+        if base.get('kind') != 'UnaryOperator' or base.get('opcode') != '*':
+            return None
+        call = strip(inner(base)[0])
+        if call.get('kind') != 'CallExpr' or callee_of(call) != ('fn', '__ctype_b_loc') or len(inner(call)) != 1:
+            return None
+        return inner(a)[1]
+
+    def tr_isxdigit(self, n, arg, env, pre):
+        x = self.tr_int(arg, env, pre)
+        a = arg
+        while a.get('kind') in ('ParenExpr', 'ConstantExpr') or \
+                (a.get('kind') in ('ImplicitCastExpr', 'CStyleCastExpr') and a.get('castKind') == 'IntegralCast'
+                 and self.T.kind(self.T.of(a)) in ('i32', 'i64', 'u32', 'u64')):
+            a = inner(a)[0]
+        try:
+            narrow = self.T.kind(self.T.of(a)) == 'u8'
+        except Unsupported:
+            narrow = False
+        if not narrow and not (x.lit is not None and -1 <= x.lit <= 255):
+            self.sidecond(n, '-1 ≤ %s ≤ 255 (argument of isxdigit)' % x.text)
+        return Val('libc_isxdigit %s' % x.arg(), 90, truth_only=True)
+
+    def tr_libc(self, name, n, args, env, pre):
+        """strlen(s), strtol(s, &end, 16), isxdigit(c) as calls of the Prelude's models"""
+        if name == 'strlen':
+            if len(args) != 1:
+                raise Unsupported('strlen arity')
+            s = self.tr_cstr(args[0], env, pre)
+            return Val('libc_strlen %s' % s.arg(), 90)
+        if name == 'isxdigit':
+            if len(args) != 1:
+                raise Unsupported('isxdigit arity')
+            return self.tr_isxdigit(n, args[0], env, pre)
+        if name == 'strtol':
+            if len(args) != 3 or self.const_eval(args[2], env) != 16:
+                raise Unsupported('strtol with a base other than the constant 16')
+            e = args[1]
+            while e.get('kind') == 'ParenExpr':
+                e = inner(e)[0]
+            ev = None
+            if e.get('kind') == 'UnaryOperator' and e.get('opcode') == '&':
+                t = inner(e)[0]
+                while t.get('kind') == 'ParenExpr':
+                    t = inner(t)[0]
+                ev = self.cstr_var(t, env)
+            if ev is None or ev.nullable or self.T.of(inner(e)[0]) != ('ptr', ('int', 'i8'), False) or \
+                    not ev.local_ptr:
+                raise Unsupported('strtol end pointer must be `&end` for a local `char *end`')
+            if self.reads(args[0], env) & {ev.cname}:
+                raise Unsupported('strtol reads the pointer it writes')
+            s = self.tr_cstr(args[0], env, pre)
+            t = self.tmp()
+            pre.append('let %s := libc_strtol16 %s' % (t, s.arg()))
+            pre.append('let %s : List Int := List.drop %s.2 %s' % (ev.lean, t, s.arg()))
+            return Val('%s.1' % t)
+        raise Unsupported('libc function %s' % name)
 
     # ---- places ----------------------------------------------------------------------------
     def tr_ptr(self, n, env, pre):
@@ -879,6 +1192,9 @@ class FnTr:
         if k in ('ImplicitCastExpr', 'CStyleCastExpr'):
             return self.tr_cast(n, env, pre)
         if k == 'BinaryOperator':
+            xd = self.isxdigit_macro(n)
+            if xd is not None:
+                return self.tr_isxdigit(n, xd, env, pre)
             return self.tr_binop(n, env, pre)
         if k == 'UnaryOperator':
             return self.tr_unop(n, env, pre)
@@ -900,12 +1216,22 @@ class FnTr:
     def tr_cast(self, n, env, pre):
         ck, c = n.get('castKind'), inner(n)[0]
         if ck == 'LValueToRValue':
+            v = self.null_tested(n, env)
+            if v is not None:       # a nullable C string in scalar context: its truth value
+                return Val('%s.isSome' % v.lean, 100, True)
+            ch = self.cstr_elem(c, env, pre)
+            if ch is not None:
+                return ch
             p = self.tr_lvalue(c, env, pre)
             if not is_scalar(p.ty):
                 raise Unsupported('aggregate or pointer value in scalar context')
             return p.read()
         if ck == 'IntegralCast':
             return self.conv(self.tr_expr(c, env, pre), self.T.of(c), self.T.of(n))
+        if ck == 'PointerToBoolean':
+            v = self.null_tested(n, env)
+            if v is not None:
+                return Val('%s.isSome' % v.lean, 100, True)
         if ck in ('IntegralToBoolean', 'PointerToBoolean'):
             return self.tr_expr(c, env, pre).as_bool()
         if ck in ('NoOp', 'BitCast'):
@@ -962,7 +1288,7 @@ class FnTr:
     def tr_logical(self, op, a, b, env, pre):
         x = self.tr_expr(a, env, pre).as_bool()
         pb = []
-        y = self.tr_expr(b, env, pb).as_bool()
+        y = self.tr_expr(b, env.knowing(self.nonnull_facts(a, env)) if op == '&&' else env, pb).as_bool()
         p = 35 if op == '&&' else 30
         if not pb:
             return Val('%s %s %s' % (x.opd(p), op, y.opd(p + 1)), p, True)
@@ -1020,6 +1346,8 @@ class FnTr:
                 raise Unsupported('memset other than memset(p, 0, sizeof(*p))')
             self.assign(p, Val('C_%s.zero' % p.ty[1]), pre)
             return None
+        if name in ('strlen', 'strtol', 'isxdigit') and name not in self.g.infos:
+            return self.tr_libc(name, n, args, env, pre)
         callee = self.g.done.get(name)
         if callee is None:
             raise Unsupported('calls %s, which is not translated' % name)
@@ -1027,10 +1355,17 @@ class FnTr:
             raise Unsupported('argument count mismatch calling %s' % name)
 
         def one(a, e, p, i=[0]):
-            t = callee.params[i[0]][1]
+            j, t = i[0], callee.params[i[0]][1]
             i[0] += 1
             if is_scalar(t):
                 return self.tr_int(a, e, p)
+            if j in callee.cstr_params:
+                if j in callee.nullable:
+                    v = self.cstr_var(strip(a), e)
+                    if v is not None and v.nullable:
+                        return Val(v.lean)
+                    return Val('some %s' % self.tr_cstr(a, e, p).arg(), 90)
+                return self.tr_cstr(a, e, p)
             return self.tr_ptr(a, e, p)
         vals = self.operands(args, env, pre, one)
         written = [(j, vals[j]) for j in sorted(callee.written)]
@@ -1155,8 +1490,36 @@ class FnTr:
         name = d['name']
         if d.get('storageClass') or d.get('tls'):
             raise Unsupported('local %s with storage class %s' % (name, d.get('storageClass')))
+        qt = d['type']['qualType']
+        m = re.fullmatch(r'char\[(\w+)(?: \+ (\d+))?\]', qt)
+        if m and not m.group(1).isdigit():
+            # `char buf[n + K]` with n a `const` local of constant value: clang prints the size expression only
+            # inside the type; this is the one variably-modified type accepted
+            base = env.vars.get(m.group(1))
+            if base is None or base.const is None or 'init' in d:
+                raise Unsupported('array %s whose size is not a constant' % name)
+            size = base.const + int(m.group(2) or 0)
+            if not 0 < size <= 4096:
+                raise Unsupported('array %s of size %d' % (name, size))
+            t = ('arr', ('int', 'i8'), size)
+            env2 = env.declare(Var(name, lname(name), t))
+            pre.append('let %s : List Int := List.replicate %d 0  -- uninitialised in C' % (lname(name), size))
+            return env2
         t = self.T.of(d)
         init = inner(d)[-1] if 'init' in d and inner(d) else None
+        if t in (CHAR_PTR, ('ptr', ('int', 'i8'), False)) and alias_target(d) is None:
+            # a local pointer into a C string: the bytes from the pointer up to the NUL
+            if init is not None:
+                if t != CHAR_PTR:
+                    raise Unsupported('local %s: a non-const pointer into a C string' % name)
+                v = self.tr_cstr(init, env, pre)
+                var = Var(name, lname(name), ('cstring',))
+                pre.append('let %s : List Int := %s' % (lname(name), v.text))
+            else:
+                var = Var(name, lname(name), ('cstring',))
+                var.local_ptr = True
+                pre.append('let %s : List Int := []  -- uninitialised in C' % lname(name))
+            return env.declare(var)
         a = alias_target(d)
         if a is not None:
             base = self.tr_ptr(a[0], env, pre)
@@ -1167,7 +1530,12 @@ class FnTr:
             return env.declare(Var(name, lname(name), None, alias=base.field(a[1], ('arr', t[1], None))))
         if is_scalar(t):
             v = self.tr_int(init, env, pre) if init is not None else None
-            env2 = env.declare(Var(name, lname(name), t))
+            var = Var(name, lname(name), t)
+            if init is not None and qt.split()[0] == 'const' and self.T.kind(t) is not None:
+                cv = self.const_eval(init, env)
+                if cv is not None:
+                    var.const = wrap_value(self.T.kind(t), cv)
+            env2 = env.declare(var)
             pre.append('let %s : Int := %s' % (lname(name), v.text if v else '0  -- uninitialised in C'))
             return env2
         if t[0] == 'struct':
@@ -1294,15 +1662,17 @@ class FnTr:
         pre = []
         c = self.tr_expr(parts[0], env, pre).as_bool()
         then, els = [parts[1]], ([parts[2]] if len(parts) == 3 else [])
+        env_t = env.knowing(self.nonnull_facts(parts[0], env))
         if contains_kind(parts[1], ('ReturnStmt',)) or (els and contains_kind(els[0], ('ReturnStmt',))):
-            a = self.tr_stmts(then + rest, env, k, rk)
+            a = self.tr_stmts(then + rest, env, k, rk) if env_t is env else \
+                self.tr_stmts(then, env_t, lambda e: self.tr_stmts(rest, env, k, rk), rk)
             b = self.tr_stmts(els + rest, env, k, rk)
             return pre + if_lines(c.text, a, b)
         w = self.wnames(then + els, env)
         if not w:
             return pre + self.tr_stmts(rest, env, k, rk)
         end = lambda e: [tuple_text([v for v, _ in w])]
-        a = self.tr_stmts(then, env, end, rk)
+        a = self.tr_stmts(then, env_t, end, rk)
         b = self.tr_stmts(els, env, end, rk)
         return pre + self.join(w, if_lines(c.text, a, b)) + self.tr_stmts(rest, env, k, rk)
 
@@ -1383,8 +1753,10 @@ class FnTr:
         # the counter must be able to reach N without wrapping
         sb = strip(bound)
         kb = self.T.kind(self.T.of(sb)) if sb.get('kind') != 'IntegerLiteral' else None
+        cb = self.const_eval(bound, env)
         fits = (nval.lit is not None and 0 <= nval.lit <= RANGE[kd][1]) or \
-            (kb is not None and RANGE[kb][1] <= RANGE[kd][1] and RANGE[kb][0] >= 0)
+            (kb is not None and RANGE[kb][1] <= RANGE[kd][1] and RANGE[kb][0] >= 0) or \
+            (cb is not None and 0 <= cb <= RANGE[kd][1])
         if not fits:
             raise Unsupported('loop bound may exceed the range of the counter')
         env_i = env.declare(Var(iname, lname(iname), it))
@@ -1428,11 +1800,11 @@ class FnTr:
         if info.ret[0] not in ('void',) and not is_scalar(info.ret):
             self.g.ret_obj(info)       # raises if unsupported
         for i, (n, t, _) in enumerate(info.params):
-            v = self.var_of_param(n, t)
-            if v.obj[0] == 'arr' and i in info.written:
-                raise Unsupported('out-array parameter %s' % n)
+            v = self.var_of_param(n, t, i)
+            if v.obj == ('cstring',) and i in info.written:
+                raise Unsupported('C string parameter %s is written' % n)
             env = env.declare(v)
-            params.append('(%s : %s)' % (v.lean, lean_type(v.obj)))
+            params.append('(%s : %s)' % (v.lean, 'Option (List Int)' if v.nullable else lean_type(v.obj)))
         top = lambda t: [t]
         body = self.tr_stmts(inner(info.body), env, lambda e: top(self.final_tuple(None)), top)
         return params, body
@@ -1823,7 +2195,15 @@ class Gen:
                  '     conditions (collected in `sideConditions`);\n'
                  '   * function pointers and `void *` are opaque integers (0 = NULL); calling `rds->callback_x`\n'
                  '     appends a `CEvent` to the log threaded through the functions that can reach a callback;\n'
-                 '   * an uninitialised local reads as 0 / zero-filled (indeterminate in C).\n-/')
+                 '   * an uninitialised local reads as 0 / zero-filled (indeterminate in C);\n'
+                 '   * a `const char *` parameter that reaches `strlen`/`strtol` is a NUL-terminated C string: the\n'
+                 '     `List Int` of its bytes as `unsigned char` (1..255) up to the NUL, which is implicit (offset\n'
+                 '     `length` reads 0); `p + K` is `List.drop K`; a plain `char` read is `i8` of the byte; such a\n'
+                 '     parameter that the function tests against NULL is an `Option (List Int)`; `strlen`,\n'
+                 '     `isxdigit` (function or glibc macro; truth value only) and `strtol(s, &end, 16)` are the\n'
+                 '     TRUSTED models `libc_strlen`, `libc_isxdigit`, `libc_strtol16` of RdsC/Prelude.lean, `end`\n'
+                 '     becoming the rest of `s` from the returned offset; a local `char` array handed to `strtol`\n'
+                 '     is the string it holds (`cstrOfChars`: up to its first NUL).\n-/')
         L.append('import RdsC.Prelude\nset_option linter.unusedVariables false\nset_option maxRecDepth 4096\n\nnamespace RDS.C')
         L += self.struct_text()
         L.append('/-- the callback log -/\nabbrev CLog := List (CEvent C_librdsparser)')
